@@ -540,6 +540,34 @@ async fn h_customtyped(rqctx: RequestContext<()>, _b: TypedBody<Typed>) -> Resul
     Ok(HttpResponseOk(Seen { seen: rqctx.request_id.clone() }))
 }
 
+#[derive(Serialize, JsonSchema)]
+struct DeclH {
+    x_one: String,
+}
+
+#[derive(Deserialize, JsonSchema)]
+struct DeclQuery {
+    hdr: Option<String>,
+}
+
+/// A typed success response with a declared header; with `?hdr=1` the handler
+/// also puts its own x-request-id values into `headers_mut()`.
+#[endpoint { method = GET, path = "/okdecl" }]
+async fn h_okdecl(
+    rqctx: RequestContext<()>,
+    q: Query<DeclQuery>,
+) -> Result<dropshot::HttpResponseHeaders<HttpResponseOk<Seen>, DeclH>, HttpError> {
+    let mut r = dropshot::HttpResponseHeaders::new(
+        HttpResponseOk(Seen { seen: rqctx.request_id.clone() }),
+        DeclH { x_one: "declared".into() },
+    );
+    if q.into_inner().hdr.is_some() {
+        r.headers_mut().insert("x-request-id", http::HeaderValue::from_static("bogus"));
+        r.headers_mut().append("x-request-id", http::HeaderValue::from_static("bogus2"));
+    }
+    Ok(r)
+}
+
 #[derive(Clone)]
 struct LvReq {
     /// scenario label understood by the driver
@@ -548,7 +576,14 @@ struct LvReq {
     status: u16,
     bogus: bool,
     nonce: String,
-    raw: Vec<u8>,
+    method: &'static str,
+    target: String,
+    ctype_json: bool,
+    body: &'static [u8],
+    /// what the client puts into its own `x-request-id` request header
+    cid: &'static str,
+    /// the value for the fixed kinds (`replay` is filled in at send time)
+    cid_value: Option<String>,
 }
 
 struct LvObs {
@@ -559,55 +594,91 @@ struct LvObs {
     body_id: Option<String>,
     leak: bool,
     well_formed: bool,
+    /// the response id is the client-supplied one (raw or as a normalised UUID)
+    adopt: bool,
 }
+
+fn gen_uuid(rng: &mut Rng) -> uuid::Uuid {
+    let a = rng.next();
+    let b = rng.next();
+    uuid::Builder::from_random_bytes(((a as u128) << 64 | b as u128).to_be_bytes()).into_uuid()
+}
+
+/// One UUID sent by every connection, in both server modes, many times.
+const GLOBAL_REPEAT: &str = "6f1c0d9e-7a52-4b1e-9c3d-2f8e5a7b4c10";
 
 fn lv_requests(rng: &mut Rng, n: usize, conn: usize) -> Vec<LvReq> {
     let mut v = Vec::new();
+    // a UUID this connection repeats on consecutive requests
+    let mut conn_repeat = gen_uuid(rng).hyphenated().to_string();
+    let mut repeat_left = 0u32;
     for i in 0..n {
         let nonce = format!("NONCE-{}-{}-{:016x}", conn, i, rng.next());
         let mut bogus = rng.chance(1, 4);
         let q = format!("?nonce={}{}", nonce, if bogus { "&bogus=1" } else { "" });
-        let (scen, status, raw): (String, u16, Vec<u8>) = match rng.below(12) {
-            0 => ("ok".into(), 200, build_request("GET", "/ok", &[], b"")),
-            1 => ("okhdr".into(), 200, build_request("GET", "/okhdr", &[], b"")),
-            2 | 3 | 4 => {
-                let ctor = *rng.pick(&["lit", "fce", "fbr", "fcs", "fie", "fua", "fnf"]);
-                let st = match ctor {
-                    "lit" => *rng.pick(&[400u16, 418, 444, 500, 503, 555, 599]),
-                    "fce" | "fcs" => *rng.pick(&[400u16, 404, 409, 444, 499]),
-                    "fbr" => 400,
-                    "fie" => 500,
-                    "fua" => 503,
-                    _ => 404,
-                };
-                (format!("herr-{}", ctor), st, build_request("GET", &format!("/err/{}/{}{}", ctor, st, q), &[], b""))
-            }
-            5 | 6 => {
-                let st = *rng.pick(&[400u16, 404, 444, 500, 503, 599]);
-                ("custom".into(), st, build_request("GET", &format!("/custom/{}{}", st, q), &[], b""))
-            }
-            7 => ("fw-404".into(), 404, build_request("GET", &format!("/nope/{}", i), &[], b"")),
-            8 => ("fw-405".into(), 405, build_request("DELETE", "/ok", &[], b"")),
-            9 => (
-                "fw-400".into(),
-                400,
-                build_request("POST", "/typed", &[("content-type", "application/json")], b"{\"n\": \"x\"}"),
-            ),
-            10 => (
-                "fwcustom-400".into(),
-                400,
-                build_request("POST", "/customtyped", &[("content-type", "application/json")], b"{"),
-            ),
-            _ => (
-                "typed-ok".into(),
-                200,
-                build_request("POST", "/typed", &[("content-type", "application/json")], b"{\"n\": 7}"),
-            ),
-        };
+        let (scen, status, method, target, ctype_json, body): (String, u16, &'static str, String, bool, &'static [u8]) =
+            match rng.below(14) {
+                0 => ("ok".into(), 200, "GET", "/ok".into(), false, b""),
+                1 => ("okhdr".into(), 200, "GET", "/okhdr".into(), false, b""),
+                2 | 3 | 4 => {
+                    let ctor = *rng.pick(&["lit", "fce", "fbr", "fcs", "fie", "fua", "fnf"]);
+                    let st = match ctor {
+                        "lit" => *rng.pick(&[400u16, 418, 444, 500, 503, 555, 599]),
+                        "fce" | "fcs" => *rng.pick(&[400u16, 404, 409, 444, 499]),
+                        "fbr" => 400,
+                        "fie" => 500,
+                        "fua" => 503,
+                        _ => 404,
+                    };
+                    (format!("herr-{}", ctor), st, "GET", format!("/err/{}/{}{}", ctor, st, q), false, b"")
+                }
+                5 | 6 => {
+                    let st = *rng.pick(&[400u16, 404, 444, 500, 503, 599]);
+                    ("custom".into(), st, "GET", format!("/custom/{}{}", st, q), false, b"")
+                }
+                7 => ("fw-404".into(), 404, "GET", format!("/nope/{}", i), false, b""),
+                8 => ("fw-405".into(), 405, "DELETE", "/ok".into(), false, b""),
+                9 => ("fw-400".into(), 400, "POST", "/typed".into(), true, b"{\"n\": \"x\"}"),
+                10 => ("fwcustom-400".into(), 400, "POST", "/customtyped".into(), true, b"{"),
+                11 => ("okdecl".into(), 200, "GET", "/okdecl".into(), false, b""),
+                12 => ("okdeclhdr".into(), 200, "GET", "/okdecl?hdr=1".into(), false, b""),
+                _ => ("typed-ok".into(), 200, "POST", "/typed".into(), true, b"{\"n\": 7}"),
+            };
         if !scen.starts_with("herr-") {
             bogus = false;
         }
-        v.push(LvReq { scen, status, bogus, nonce, raw });
+        // the client's own x-request-id request header
+        let (cid, cid_value): (&'static str, Option<String>) = if repeat_left > 0 {
+            repeat_left -= 1;
+            ("repeat-conn", Some(conn_repeat.clone()))
+        } else {
+            match rng.below(20) {
+                0..=8 => ("none", None),
+                9 => ("uuid-hyphenated", Some(gen_uuid(rng).hyphenated().to_string())),
+                10 => ("uuid-simple", Some(gen_uuid(rng).simple().to_string())),
+                11 => ("uuid-upper", Some(gen_uuid(rng).hyphenated().to_string().to_uppercase())),
+                12 => ("uuid-braced", Some(gen_uuid(rng).braced().to_string())),
+                13 => ("uuid-urn", Some(gen_uuid(rng).urn().to_string())),
+                14 => (
+                    "garbage",
+                    Some(rng.pick(&["not-a-uuid", "", "0", "../../etc", "\"quoted\"", "1234; drop", "zzzzzzzz-zzzz-zzzz-zzzz-zzzzzzzzzzzz"]).to_string()),
+                ),
+                15 | 16 => {
+                    if i == 0 {
+                        ("none", None)
+                    } else {
+                        ("replay", None)
+                    }
+                }
+                17 => {
+                    conn_repeat = gen_uuid(rng).hyphenated().to_string();
+                    repeat_left = rng.range(1, 4) as u32;
+                    ("repeat-conn", Some(conn_repeat.clone()))
+                }
+                _ => ("repeat-global", Some(GLOBAL_REPEAT.to_string())),
+            }
+        };
+        v.push(LvReq { scen, status, bogus, nonce, method, target, ctype_json, body, cid, cid_value });
     }
     v
 }
@@ -616,7 +687,7 @@ fn contains(hay: &[u8], needle: &[u8]) -> bool {
     !needle.is_empty() && hay.windows(needle.len()).any(|w| w == needle)
 }
 
-fn lv_observe(req: &LvReq, r: &RawResponse) -> LvObs {
+fn lv_observe(req: &LvReq, sent_cid: &Option<String>, r: &RawResponse) -> LvObs {
     let xrids: Vec<String> = r.header_all("x-request-id").iter().map(|s| s.to_string()).collect();
     let ctype = r.header("content-type").unwrap_or("none").to_string();
     let json: Option<serde_json::Value> = serde_json::from_slice(&r.body).ok();
@@ -634,6 +705,13 @@ fn lv_observe(req: &LvReq, r: &RawResponse) -> LvObs {
         all.push(b'\n');
     }
     all.extend_from_slice(r.reason.as_bytes());
+    let adopt = match sent_cid {
+        None => false,
+        Some(c) => {
+            let norm = uuid::Uuid::parse_str(c).ok().map(|u| u.hyphenated().to_string());
+            xrids.iter().any(|x| x == c.trim() || Some(x) == norm.as_ref())
+        }
+    };
     LvObs {
         status: r.status,
         xrids,
@@ -642,104 +720,146 @@ fn lv_observe(req: &LvReq, r: &RawResponse) -> LvObs {
         body_id,
         leak: contains(&all, req.nonce.as_bytes()),
         well_formed: r.well_formed,
+        adopt,
     }
 }
 
 fn lv_stream(out: &mut Out, id: &mut u64, thorough: bool) {
     let rt = tokio::runtime::Builder::new_multi_thread().worker_threads(4).enable_all().build().unwrap();
-    let server = rt.block_on(async {
-        let mut api = ApiDescription::new();
-        api.register(h_ok).unwrap();
-        api.register(h_okhdr).unwrap();
-        api.register(h_err).unwrap();
-        api.register(h_custom).unwrap();
-        api.register(h_typed).unwrap();
-        api.register(h_customtyped).unwrap();
-        start_server(api, (), ServerOpts::default())
-    });
-    let addr = server.local_addr();
-    let conns = 8usize;
-    let per_conn = if thorough { 20_000 } else { 2_000 };
-    let mut handles = Vec::new();
-    for c in 0..conns {
-        let mut rng = Rng::from_env(1300 + c as u64);
-        let reqs = lv_requests(&mut rng, per_conn, c);
-        handles.push(std::thread::spawn(move || {
-            let mut results: Vec<(LvReq, Option<LvObs>)> = Vec::new();
-            let mut rr: Option<RespReader> = None;
-            for req in reqs {
-                let mut obs = None;
-                // a keep-alive connection, re-opened if the server closed it
-                for _attempt in 0..3 {
-                    if rr.is_none() {
-                        match connect(addr) {
-                            Ok(s) => rr = Some(RespReader::new(s)),
-                            Err(_) => {
-                                std::thread::sleep(std::time::Duration::from_millis(50));
-                                continue;
+    // no id may occur on two responses in the whole run, across both servers
+    let mut all_ids: HashSet<String> = HashSet::new();
+    for (mode_no, (mode, mode_label)) in
+        [(dropshot::HandlerTaskMode::Detached, "detached"), (dropshot::HandlerTaskMode::CancelOnDisconnect, "cancel")]
+            .into_iter()
+            .enumerate()
+    {
+        let server = rt.block_on(async {
+            let mut api = ApiDescription::new();
+            api.register(h_ok).unwrap();
+            api.register(h_okhdr).unwrap();
+            api.register(h_okdecl).unwrap();
+            api.register(h_err).unwrap();
+            api.register(h_custom).unwrap();
+            api.register(h_typed).unwrap();
+            api.register(h_customtyped).unwrap();
+            start_server(api, (), ServerOpts { mode, ..Default::default() })
+        });
+        let addr = server.local_addr();
+        let conns = 8usize;
+        let per_conn = if thorough { 12_000 } else { 1_500 };
+        let mut handles = Vec::new();
+        for c in 0..conns {
+            let mut rng = Rng::from_env(1300 + 100 * mode_no as u64 + c as u64);
+            let reqs = lv_requests(&mut rng, per_conn, c);
+            handles.push(std::thread::spawn(move || {
+                let mut results: Vec<(LvReq, Option<LvObs>)> = Vec::new();
+                let mut rr: Option<RespReader> = None;
+                // the id on the previous response of this connection (for replays)
+                let mut earlier: Vec<String> = Vec::new();
+                for (i, req) in reqs.into_iter().enumerate() {
+                    let sent_cid: Option<String> = match req.cid {
+                        "replay" => Some(earlier[(i * 7) % earlier.len()].clone()),
+                        _ => req.cid_value.clone(),
+                    };
+                    let mut hdrs: Vec<(&str, &str)> = Vec::new();
+                    if req.ctype_json {
+                        hdrs.push(("content-type", "application/json"));
+                    }
+                    if let Some(c) = &sent_cid {
+                        hdrs.push(("X-Request-Id", c.as_str()));
+                    }
+                    let raw = build_request(req.method, &req.target, &hdrs, req.body);
+                    let mut obs = None;
+                    // a keep-alive connection, re-opened if the server closed it
+                    for _attempt in 0..3 {
+                        if rr.is_none() {
+                            match connect(addr) {
+                                Ok(s) => rr = Some(RespReader::new(s)),
+                                Err(_) => {
+                                    std::thread::sleep(std::time::Duration::from_millis(50));
+                                    continue;
+                                }
                             }
                         }
-                    }
-                    let r = rr.as_mut().unwrap();
-                    if r.stream.write_all(&req.raw).is_err() {
-                        rr = None;
-                        continue;
-                    }
-                    match r.read_response(false) {
-                        Some(resp) if resp.well_formed => {
-                            let close = resp.header("connection").map(|v| v.eq_ignore_ascii_case("close")).unwrap_or(false);
-                            obs = Some(lv_observe(&req, &resp));
-                            if close {
+                        let r = rr.as_mut().unwrap();
+                        if r.stream.write_all(&raw).is_err() {
+                            rr = None;
+                            continue;
+                        }
+                        match r.read_response(false) {
+                            Some(resp) if resp.well_formed => {
+                                let close =
+                                    resp.header("connection").map(|v| v.eq_ignore_ascii_case("close")).unwrap_or(false);
+                                let o = lv_observe(&req, &sent_cid, &resp);
+                                if let Some(x) = o.xrids.last() {
+                                    if earlier.len() < 64 {
+                                        earlier.push(x.clone());
+                                    } else {
+                                        let k = i % 64;
+                                        earlier[k] = x.clone();
+                                    }
+                                }
+                                obs = Some(o);
+                                if close {
+                                    rr = None;
+                                }
+                                break;
+                            }
+                            _ => {
                                 rr = None;
                             }
-                            break;
-                        }
-                        _ => {
-                            rr = None;
                         }
                     }
+                    if earlier.is_empty() {
+                        // never replay into the void
+                        earlier.push("00000000-0000-4000-8000-000000000000".to_string());
+                    }
+                    results.push((req, obs));
                 }
-                results.push((req, obs));
-            }
-            results
-        }));
-    }
-    let mut all_ids: HashSet<String> = HashSet::new();
-    for h in handles {
-        for (req, obs) in h.join().unwrap() {
-            *id += 1;
-            let head = format!("lv {} {} {} {} =>", id, req.scen, req.status, req.bogus as u8);
-            match obs {
-                None => out.line(&format!("{} noresponse", head)),
-                Some(o) => {
-                    let first = o.xrids.first().cloned();
-                    let fresh = match &first {
-                        Some(x) => all_ids.insert(x.clone()),
-                        None => false,
-                    };
-                    let eq = |a: &Option<String>, b: &Option<String>| match (a, b) {
-                        (Some(a), Some(b)) => ((a == b) as u8).to_string(),
-                        _ => "na".to_string(),
-                    };
-                    out.line(&format!(
-                        "{} {} {} {} {} {} {} {} {}",
-                        head,
-                        o.status,
-                        o.xrids.len(),
-                        eq(&first, &o.seen),
-                        eq(&first, &o.body_id),
-                        fresh as u8,
-                        o.leak as u8,
-                        if o.ctype == "application/json" { "json" } else { "other" },
-                        o.well_formed as u8,
-                    ));
+                results
+            }));
+        }
+        for h in handles {
+            for (req, obs) in h.join().unwrap() {
+                *id += 1;
+                let head =
+                    format!("lv {} {} {} {} {} {} =>", id, mode_label, req.scen, req.status, req.bogus as u8, req.cid);
+                match obs {
+                    None => out.line(&format!("{} noresponse", head)),
+                    Some(o) => {
+                        let first = o.xrids.first().cloned();
+                        // every value on this response must be new in the run
+                        let mut fresh = !o.xrids.is_empty();
+                        for x in &o.xrids {
+                            if !all_ids.insert(x.clone()) {
+                                fresh = false;
+                            }
+                        }
+                        let eq = |a: &Option<String>, b: &Option<String>| match (a, b) {
+                            (Some(a), Some(b)) => ((a == b) as u8).to_string(),
+                            _ => "na".to_string(),
+                        };
+                        out.line(&format!(
+                            "{} {} {} {} {} {} {} {} {} {}",
+                            head,
+                            o.status,
+                            o.xrids.len(),
+                            eq(&first, &o.seen),
+                            eq(&first, &o.body_id),
+                            fresh as u8,
+                            o.leak as u8,
+                            if o.ctype == "application/json" { "json" } else { "other" },
+                            o.well_formed as u8,
+                            o.adopt as u8,
+                        ));
+                    }
                 }
             }
         }
+        rt.block_on(async {
+            let _ = server.close().await;
+        });
     }
-    rt.block_on(async {
-        let _ = server.close().await;
-    });
 }
 
 fn main() {
